@@ -1,7 +1,8 @@
 (* C15 — groff mom output: document text is never read as a roff request or escape.
    Escaping half: about Gen/Tables.roff_table (regenerated from escape.go); escape.Roff = Repl.enc roff_table. *)
-Require Import Repl Tables EscapeProofs.
-From Coq Require Import List NArith.
+Require Import Repl Tables EscapeProofs MomText.
+Require Import St Text.
+From Coq Require Import List NArith String.
 Import ListNotations.
 Open Scope N_scope.
 
@@ -14,7 +15,19 @@ Proof. exact roff_escape_safe. Qed.
 Theorem C15_specials_are_escaped : forall c, In c roff_specials ->
   exists im, lookup roff_table c = Some im /\ enc1 roff_table c = im.
 Proof. intros c H. exact (special_not_passthrough roff_table roff_specials c roff_specials_keys H). Qed.
+(* On the model of the processor (Model/Text.v, which the correspondence ties to frundis/utils.go renderText /
+   inlinesToText): in mom format the text rendered for a text block, and the arguments rendered for an exporter
+   (joined with spaces), are escaped text whatever the language's typography did first -- for every list of inlines
+   (text, escapes, interpolated variables), every state. *)
+Theorem C15_model_text_is_escaped : forall l s q, St.format s = R "mom" -> rresting q ->
+  rresting (mrun rstate rstep q (fst (Text.render_text l s))).
+Proof. exact mom_rendered_text_rests. Qed.
+Theorem C15_model_arguments_are_escaped : forall l s q, St.format s = R "mom" -> rresting q ->
+  rresting (mrun rstate rstep q (fst (Text.render_args l s))).
+Proof. exact mom_rendered_args_rests. Qed.
 Example C15_nonvacuous : rresting Bol /\ mrun rstate rstep Bol [46; 120] = Bad /\ enc roff_table [46; 120] = [92; 38; 46; 120].
 Proof. repeat split; vm_compute; auto. Qed.
 Print Assumptions C15_escaped_text_is_never_control.
 Print Assumptions C15_specials_are_escaped.
+Print Assumptions C15_model_text_is_escaped.
+Print Assumptions C15_model_arguments_are_escaped.
